@@ -882,6 +882,9 @@ class StringNode(LeafNode):
         if isinstance(node, StringNode):
             if self.object == node.object:
                 return Match(self, node, 0)
+            elif not isinstance(self.object, (str, bytes)) or not isinstance(node.object, (str, bytes)):
+                # the individual elements of a bytes object are ints (see string_edit_distance)
+                return Match(self, node, 1)
             elif len(self.object) == 1 and len(node.object) == 1:
                 return Match(self, node, 1)
             return StringEdit(self, node)
